@@ -76,6 +76,38 @@ try:
                 verdict(True, "a stored conflict list is not read back identically after it replaced a similar list",
                         input=dict(first=[repr(c) for c in first], second=[repr(c) for c in second]),
                         observed=[fields(c) for c in back], expected=[fields(c) for c in second])
+    # merge hashes: stored for several files, read back after re-opening; then one recorded file is unversioned / changed: the records
+    # of the OTHER files (still versioned, text unchanged) must still be read back, whichever position the stale record has
+    import itertools as _it
+    d3 = os.path.join(base, "mh"); os.mkdir(d3)
+    cd3 = controldir.format_registry.make_controldir("2a").initialize(d3); cd3.create_repository(); cd3.create_branch()
+    wt3 = cd3.create_workingtree()
+    names = ["m1", "m\u00e5", "m3"]
+    for n_ in names:
+        open(os.path.join(d3, n_), "w").write(n_ + "\n")
+    wt3.add(names); wt3.commit("1", committer="t <t@e.x>")
+    with wt3.lock_read():
+        full = dict((n_, wt3.get_file_sha1(n_)) for n_ in names)
+    for order in _it.permutations(names):
+        for stale in names:
+            for how in ("unversion", "edit"):
+                tried += 1
+                wt3 = wt3.controldir.open_workingtree()
+                wt3.revert(backups=False)
+                wt3.set_merge_modified(dict((n_, full[n_]) for n_ in order))
+                back = wt3.controldir.open_workingtree().merge_modified()
+                if back != full:
+                    verdict(True, "merge hashes are not read back identically after re-opening", input=list(order), observed=str(back), expected=str(full))
+                if how == "unversion":
+                    wt3.remove([stale], keep_files=True)
+                else:
+                    open(os.path.join(d3, stale), "w").write("edited\n")
+                got = wt3.controldir.open_workingtree().merge_modified()
+                want = dict((n_, h_) for n_, h_ in full.items() if n_ != stale)
+                if got != want:
+                    verdict(True, "the merge hashes of still-versioned, unchanged files were lost (or a stale one kept) after one recorded file was %s"
+                            % ("unversioned" if how == "unversion" else "edited"),
+                            input=dict(recorded_in_order=list(order), stale=stale), observed=str(sorted(got)), expected=str(sorted(want)))
 finally:
     shutil.rmtree(base, ignore_errors=True)
 verdict(False, "no failing input among %d" % tried)
